@@ -71,6 +71,70 @@ theorem C06_squeeze_blank_run (ws rest : Str) (pend ne : Bool) (h : ∀ c ∈ ws
     rw [ih true (fun x hx => h x (by simp [hx]))]
     simp
 
+/-! ### the whole text: only white space outside literals can change -/
+
+/-- the text without the white space that stands outside string literals (same scanner states as `sqGo`) -/
+def stripGo : Str → Nat → Bool → Str
+  | [], _, _ => []
+  | r :: rest, q, esc =>
+    if q != 0 then
+      r :: (if esc then stripGo rest q false
+            else if r == bs then stripGo rest q true
+            else if r == q then stripGo rest 0 false
+            else stripGo rest q false)
+    else if Model.Literal.isSpace r then stripGo rest 0 false
+    else r :: stripGo rest (if r == dq || r == sq then r else 0) false
+
+theorem stripGo_squeeze (s : Str) : ∀ (q : Nat) (esc pend ne : Bool), (q = 0 → esc = false) →
+    stripGo (sqGo s q esc pend ne) q esc = stripGo s q esc := by
+  induction s with
+  | nil => intro q esc pend ne _; simp [sqGo]
+  | cons r rest ih =>
+    intro q esc pend ne hq0
+    by_cases hq : q = 0
+    · subst hq
+      have he := hq0 rfl
+      subst he
+      by_cases hsp : Model.Literal.isSpace r = true
+      · simp only [sqGo, stripGo, bne_self_eq_false, Bool.false_eq_true, if_false, hsp, if_true]
+        exact ih 0 false true ne (fun _ => rfl)
+      · have hsp' : Model.Literal.isSpace r = false := by simpa using hsp
+        have h32 : Model.Literal.isSpace 32 = true := by decide
+        have hnext := ih (if r == dq || r == sq then r else 0) false false true (fun _ => rfl)
+        simp only [sqGo, bne_self_eq_false, Bool.false_eq_true, if_false, hsp']
+        by_cases hp : (pend && ne) = true
+        · simp only [hp, if_true, List.cons_append, List.nil_append, stripGo, bne_self_eq_false, Bool.false_eq_true,
+            if_false, h32, hsp']
+          rw [hnext]
+        · have hp' : (pend && ne) = false := by simpa using hp
+          simp only [hp', Bool.false_eq_true, if_false, List.nil_append, stripGo, bne_self_eq_false, hsp']
+          rw [hnext]
+    · have hq' : (q != 0) = true := by simpa using hq
+      simp only [sqGo, stripGo, hq', if_true]
+      congr 1
+      by_cases he : esc = true
+      · subst he
+        simp only [if_true]
+        exact ih q false pend true (fun h => absurd h hq)
+      · have he' : esc = false := by simpa using he
+        subst he'
+        simp only [Bool.false_eq_true, if_false]
+        by_cases hb : (r == bs) = true
+        · simp only [hb, if_true]
+          exact ih q true pend true (fun h => absurd h hq)
+        · simp only [hb, Bool.false_eq_true, if_false]
+          by_cases hrq : (r == q) = true
+          · simp only [hrq, if_true]
+            exact ih 0 false pend true (fun _ => rfl)
+          · simp only [hrq, Bool.false_eq_true, if_false]
+            exact ih q false pend true (fun h => absurd h hq)
+
+/-- **C06_squeeze_changes_blanks_only**: for every text, squeezing changes nothing but white space that stands
+outside string literals: with that white space removed, the squeezed text and the original are the same rune
+sequence — every token and every literal body, however it is escaped, survives in order. -/
+theorem C06_squeeze_changes_blanks_only (s : Str) : stripGo (squeeze s) 0 false = stripGo s 0 false :=
+  stripGo_squeeze s 0 false false false (fun _ => rfl)
+
 -- tests (labelled as tests): the values that used to be corrupted
 example : squeeze (Str.ofString "name:  \"a  b\"   key: \"x　y\"\n") = Str.ofString "name: \"a  b\" key: \"x　y\"" := by decide
 example : closedBody dq (Str.ofString "a \\\" b \\\\") false = true := by decide
